@@ -186,6 +186,21 @@ PRECALLS = ["kappa", "dmax", "dmaxperm", "delta", "sigma", "omega", "omegaseq", 
             "kappaX s000045,s000044 s00004b,s000052", "kappaX s000050,s000045,s000044,s00004b,s000052 -", "fcr", "countNeg", "seq"]
 
 
+def file_cases(rng, n, own, maxlen=60):
+    """the property's own queries on objects built with sequenceFile= : two files per block (the second one must not see the first),
+    FASTA header or not, line breaks every 10-60 residues, optional trailing '*'"""
+    from .runner import Case
+    from .real import hex6
+    for _ in range(n):
+        lines = []
+        for _f in range(2):
+            s = rand_seq(rng, rng.choice(KINDS), rng.randint(1, maxlen))
+            w = rng.choice([10, 25, 60])
+            text = (">sp|TEST\n" if rng.random() < 0.5 else "") + "\n".join(s[i:i + w] for i in range(0, len(s), w)) + rng.choice(["", "\n", "*\n"])
+            lines += ["parseq %s %s" % (hex6(text), q) for q in own]
+        yield Case(lines, {"kind": "object-from-file"})
+
+
 def after_calls_cases(rng, n, own, minlen=8, maxlen=50):
     """blocks `new 0 SEQ ; <other public calls> ; <the property's own queries>` on ONE object: half of them with every call of PRECALLS
     (shuffled), half with a random few; only the own queries are judged (tag judge_from)"""
